@@ -33,7 +33,7 @@ def _nt(f):
 
 
 def _strategy(tier):
-    return market_cases(max_ops=60 if tier == "quick" else 300, market_frac=2, illegal=True, pre_ticks=True)
+    return market_cases(max_ops=60 if tier == "quick" else 300, market_frac=2, illegal=True, pre_ticks=True, jumps=True)
 
 
 ctor_cases = st.fixed_dictionaries({
